@@ -14,7 +14,7 @@ EXPLANATION = (
     'else, or anything unrecognised, is a violation. R11.b: no library function calls a clock, rand, thread identity, the '
     'environment, a pointer-to-integer cast or fmt::Pointer. R11.c: hand-written PartialEq impls read every field of the type '
     '(or the field is tabled). R11.e: a hand-written equality consumes a header\'s HeaderValues only as a whole list (never its first / last value). R11.d: the only interior-mutable statics are the timer counter and the cleared-timer set. '
-    'Does not decide byte-identical replays nor determinism inside url/serde_json/http_types.')
+    'Does not decide byte-identical replays nor determinism inside url/serde_json/http_types. R11.b also covers futures\' select! (pseudo-random first arm) and scans macro-generated closures inside hand-written functions.')
 
 RUNTIME_CRATES = ['crux_core', 'crux_http', 'crux_kv', 'crux_time', 'crux_platform']
 HT = 'http_types_red_badger_temporary_fork'
